@@ -1,10 +1,10 @@
 //@ unit covers
 //@ props C05
 //@@ depends cosets dsyms free_words partitions
-//@@ same-spec cosets :: valid trace inv_word
+//@@ same-spec cosets :: valid trace inv_word within all_within
 //@@ same-spec dsyms :: base_complete bop sm_callable sm_functional sm_involutive sm_injective
 use vstd::prelude::*;
-use std::collections::BTreeMap;
+use std::collections::{BTreeMap, BTreeSet};
 verus! {
 // =====================================================================================================
 // cover_for_table (src/covers.rs): the cover of a symbol that belongs to a coset table of its fundamental group.
@@ -366,6 +366,128 @@ pub proof fn lemma_words_paired<T: DSet>(ds: &T, t: &CosetTable, m: &BTreeMap<(u
             assert(trace(t, s, rels[k]@) == Some(s as usize));
         }
     }
+}
+
+// =====================================================================================================
+// subgroup_cover / finite_universal_cover: fundamental group -> Todd-Coxeter table of the subgroup -> cover_for_table.
+// fundamental_group is OUTSIDE the contracts (C09 is not applicable); what the chain needs of it is stated as an assumed contract,
+// and it is exactly the syntactic part of C09.  coset_table is imported from unit cosets (proved there).
+// =====================================================================================================
+pub open spec fn within(s: Seq<isize>, b: int) -> bool { forall|k: int| 0 <= k < s.len() ==> -b <= #[trigger] s[k] <= b }
+pub open spec fn all_within(ws: Seq<FreeWord>, b: int) -> bool { forall|m: int| 0 <= m < ws.len() ==> within((#[trigger] ws[m])@, b) }
+
+//@@ import cosets :: coset_table
+#[verifier::external_body]
+pub fn coset_table(
+    nr_gens: usize, relators: &Vec<FreeWord>, subgroup_gens: &Vec<FreeWord>
+) -> (result: CosetTable)
+    requires nr_gens < isize::MAX / 2,
+        all_within(relators@, nr_gens as int), all_within(subgroup_gens@, nr_gens as int),
+    ensures result.wf(), result.nr_gens == nr_gens, result.table@.len() >= 1,
+        result.table@.len() <= 100_000,
+        valid(&result),
+        forall|m: int, r: int| 0 <= m < relators@.len() && 0 <= r < result.table@.len() ==> #[trigger] trace(&result, r, relators@[m]@) == Some(r as usize),
+{ unimplemented!() }
+
+type Edge = (usize, usize);
+//@ begin src/fundamental_group.rs :: - :: struct FundamentalGroup | props=C05
+pub struct FundamentalGroup {
+    pub relators: Vec<FreeWord>,
+    pub cones: BTreeSet<(FreeWord, usize)>,
+    pub gen_to_edge: BTreeMap<usize, Edge>,
+    pub edge_to_word: BTreeMap<Edge, FreeWord>,
+}
+//@ end
+
+impl FundamentalGroup {
+    // the number of generators (`self.gen_to_edge.len()`)
+    pub uninterp spec fn ngens(&self) -> int;
+    //@ begin src/fundamental_group.rs :: impl FundamentalGroup :: fn nr_generators | props=C05
+    //@ rw R16 /-> usize/-> (r: usize)/
+    #[verifier::external_body]
+    pub fn nr_generators(&self) -> (r: usize)
+        ensures r == self.ngens()
+    {
+        self.gen_to_edge.len()
+    }
+    //@ end
+}
+
+// every letter is a generator 1..=n or its inverse
+pub open spec fn letters_ok(w: Seq<isize>, n: int) -> bool { forall|k: int| 0 <= k < w.len() ==> #[trigger] w[k] != 0 && -n <= w[k] <= n }
+// ASSUMED of fundamental_group (the syntactic content of C09): at most one generator per facet, relators and facet words are words in the
+// generators, and the two words of every facet are mutually inverse or multiply to a relator
+pub open spec fn fg_spec<T: DSet>(ds: &T, g: &FundamentalGroup) -> bool {
+    &&& 0 <= g.ngens() <= ds.ssize() * (ds.sdim() + 1)
+    &&& all_within(g.relators@, g.ngens())
+    &&& forall|d: usize, i: usize| 1 <= d <= ds.ssize() && i <= ds.sdim() ==> letters_ok(#[trigger] ew_word(&g.edge_to_word, d, i), g.ngens())
+    &&& words_by_relators(ds, &g.edge_to_word, g.relators@)
+}
+pub uninterp spec fn fg_ngens<T: DSet>(ds: &T) -> int;
+#[verifier::external_body]
+pub fn fundamental_group<T: DSym>(ds: &T) -> (g: FundamentalGroup)
+    requires ds.wf(), base_complete(ds)
+    ensures fg_spec(ds, &g), g.ngens() == fg_ngens(ds)
+{ unimplemented!() }
+
+//@ begin src/covers.rs :: - :: fn subgroup_cover | props=C05
+//@ rw R16 /^([ \t]*)-> PartialDSym$/\1-> (res: PartialDSym)/
+//@ rw R14 /^([ \t]*)cover_for_table\(ds, &table, &g\.edge_to_word\)$/\1let __r = cover_for_table(ds, &table, &g.edge_to_word);\n\1__r/
+pub fn subgroup_cover<T: DSym>(ds: &T, subgens: &Vec<FreeWord>)
+    -> (res: PartialDSym)
+    requires ds.wf(), base_complete(ds), ds.ssize() >= 1, ds.sdim() >= 0,
+        100_000 * ds.ssize() * (ds.sdim() + 1) <= usize::MAX, 100_000 * ds.ssize() < usize::MAX,
+        all_within(subgens@, fg_ngens(ds)),
+    // C05: a covering of ds (with one sheet per row of the Todd-Coxeter table, at most 100_000: the enumeration aborts beyond), with the degrees of ds
+    ensures exists|n: int| 1 <= n <= 100_000 && #[trigger] covers(&res, ds, n), cover_degrees(&res, ds),
+{
+    let g = fundamental_group(ds);
+    proof {
+        assert(g.ngens() <= ds.ssize() * (ds.sdim() + 1));
+        assert(ds.ssize() * (ds.sdim() + 1) < isize::MAX / 2) by(nonlinear_arith)
+            requires 100_000 * ds.ssize() * (ds.sdim() + 1) <= usize::MAX, ds.ssize() >= 1, ds.sdim() >= 0;
+    }
+    let table = coset_table(g.nr_generators(), &g.relators, subgens);
+    proof {
+        let n = table.table@.len() as int;
+        assert(words_ok(ds, &table, &g.edge_to_word)) by {
+            assert forall|d: usize, i: usize| 1 <= d <= ds.ssize() && i <= ds.sdim() implies gens_ok(&table, #[trigger] ew_word(&g.edge_to_word, d, i)) by {
+                let w = ew_word(&g.edge_to_word, d, i);
+                assert(letters_ok(w, g.ngens()));
+                assert forall|k: int| 0 <= k < w.len() implies table.gen_ok(#[trigger] w[k] as int) by { }
+            }
+        }
+        assert(closes(&table, g.relators@));
+        lemma_words_paired(ds, &table, &g.edge_to_word, g.relators@);
+        assert(n * ds.ssize() * (ds.sdim() + 1) <= usize::MAX && n * ds.ssize() < usize::MAX) by(nonlinear_arith)
+            requires 1 <= n <= 100_000, 100_000 * ds.ssize() * (ds.sdim() + 1) <= usize::MAX, 100_000 * ds.ssize() < usize::MAX, ds.ssize() >= 1, ds.sdim() >= 0;
+    }
+    let __r = cover_for_table(ds, &table, &g.edge_to_word);
+    proof { assert(covers(&__r, ds, table.table@.len() as int)); }
+    __r
+}
+//@ end
+
+//@ begin src/covers.rs :: - :: fn finite_universal_cover | props=C05
+//@ rw R16 /-> PartialDSym$/-> (res: PartialDSym)/
+//@ rw R12+R14 /^([ \t]*)subgroup_cover\(ds, &vec!\[\]\)$/\1let __none: Vec<FreeWord> = vec![];\n\1subgroup_cover(ds, &__none)/
+pub fn finite_universal_cover<T: DSym>(ds: &T) -> (res: PartialDSym)
+    requires ds.wf(), base_complete(ds), ds.ssize() >= 1, ds.sdim() >= 0,
+        100_000 * ds.ssize() * (ds.sdim() + 1) <= usize::MAX, 100_000 * ds.ssize() < usize::MAX,
+    ensures exists|n: int| 1 <= n <= 100_000 && #[trigger] covers(&res, ds, n), cover_degrees(&res, ds),
+{
+    let __none: Vec<FreeWord> = vec![];
+    subgroup_cover(ds, &__none)
+}
+//@ end
+
+fn canary_subgroup_cover_contract<T: DSym>(ds: &T, subgens: &Vec<FreeWord>)
+    requires ds.wf(), base_complete(ds), ds.ssize() >= 1, ds.sdim() >= 0,
+        100_000 * ds.ssize() * (ds.sdim() + 1) <= usize::MAX, 100_000 * ds.ssize() < usize::MAX,
+        all_within(subgens@, fg_ngens(ds)),
+    ensures false
+{
+    let r = subgroup_cover(ds, subgens);
 }
 
 // =====================================================================================================
